@@ -28,6 +28,11 @@ def run(rep, tier):
                       "for every combination of the two ranks; with rank(A) = 2 the 9-component form is used (else A's quadrupole terms are dropped and E(A,B) != E(B,A))")
     rep.rule("R15.5", "StaticSite::Rotate(R, ref) rotates every moment the site carries: position ref + R (pos - ref); dipole components R d whenever rank > 0; "
                       "quadrupole spherical(R C R^T) whenever rank > 1 (rotation invariance of the pair energy needs positions and moments to turn together)")
+    rep.rule("R15.6", "VSiteA<N>(A, B) = T(R, u) Q(B) with T the interaction tensor of the Cartesian multipole expansion, (q_A + mu_A.d + Theta_A:dd/3)(q_B - mu_B.d + "
+                      "Theta_B:dd/3) 1/|r|, in real spherical components, for N = 4, 9 and rank(B) = 0, 1, 2, block by block; T depends on posB - posA only and not on A's "
+                      "moments. The expansion tensor satisfies T_ij(u) = T_ji(-u) (the pair energy does not depend on the order of the sites), T_00 = 1/R, is a contraction "
+                      "of Cartesian tensors (rotation invariance) and is the small-cluster limit of point-charge clusters; CalculateCartesianMultipole is the matching "
+                      "spherical->Cartesian map and CalculateSphericalMultipole its inverse")
     rep.rule("R15.3", "VSiteA<N>: the interaction block (rank a of site A) x (rank b of site B) is accumulated exactly once whenever A carries rank a "
                       "(N = 1, 4, 9) and B carries rank b (getRank() >= b), for all nine rank pairs - no pair is dropped or doubled by the rank gating")
     units = [front.repo("xtp/src/libxtp/eeinteractor.cc")]
@@ -117,12 +122,13 @@ def run(rep, tier):
         ok = len(first) == 1 and v0 and v0[0] is first[0] and not isinstance(first[0]["value"], (tuple, Matrix)) and sp.simplify(first[0]["value"] - want) == 0
         rep.check(ok, "R15.2", "monopole|%s" % (g.j.get("qname_targs") or g.qname).split("::")[-1], "V(0) starts as q_B / |posB - posA|",
                   "%s: the charge-charge entry starts as %s (required getCharge(%s)/|getPos(%s) - getPos(%s)|)" % (g.qname, [str(e["value"])[:120] for e in v0[:1]], bn, bn, an), g.loc(), sample=True)
-    rep.assumptions += ["exchange symmetry, translation/rotation invariance, the rank-1/2 tensor blocks, the Coulomb limit of charge clusters and the "
-                        "field/energy derivative relation are NOT decided (they need path-sensitive evaluation of VSiteA<N> over if-constexpr/rank "
-                        "branches or execution)"]
+    rep.assumptions += ["the interaction tensor is compared with the Cartesian multipole expansion for traceless quadrupoles in Stone's real spherical components "
+                        "(Q20, Q21c, Q21s, Q22c, Q22s); floating-point error of the compiled code and the accuracy of the expansion for finite clusters are not decided",
+                        "the field/energy derivative relation is decided only through R15.4 (field and energy are read off the same VSiteA vector)"]
     check_rank_gating(rep, F)
     check_size_selection(rep, F)
     check_rotate(rep)
+    check_interaction_tensor(rep, F)
 
 
 def check_rank_gating(rep, F):
@@ -327,3 +333,121 @@ def check_rotate(rep):
             and str(getattr(qd[0]["value"], "func", "")) == "CalculateSphericalMultipole"
         why = "the quadrupole part is not spherical(R C R^T)"
     rep.check(ok, "R15.5", "rotate", "position, dipole (rank > 0) and quadrupole (rank > 1) are all rotated", "StaticSite::Rotate: " + why, f.loc(), sample=True)
+
+
+def check_interaction_tensor(rep, F):
+    """R15.6: the whole interaction vector of VSiteA<N>, folded as dense matrix algebra (vsa/dense.py) for each instantiation and each rank of site B, is linear in
+    B's moments and its coefficient matrix equals the Cartesian multipole-expansion tensor derived here by differentiating 1/r"""
+    from vsa.dense import Dense, Mat, Obj
+    ux, uy, uz = sp.symbols("ux uy uz", real=True)
+    R = sp.Symbol("R", positive=True)
+    Ax, Ay, Az = sp.symbols("Ax Ay Az", real=True)
+    QA = sp.symbols("QA0:9", real=True)
+    QB = sp.symbols("QB0:9", real=True)
+
+    def red(e):
+        """normal form modulo ux^2 + uy^2 + uz^2 = 1"""
+        e = sp.expand(e)
+        if not e.has(uz):
+            return e
+        out = 0
+        for (k_,), c_ in sp.Poly(e, uz).terms():
+            out += c_ * (1 - ux ** 2 - uy ** 2) ** (k_ // 2) * uz ** (k_ % 2)
+        return sp.expand(out)
+
+    def site(pos, Q, rank):
+        return Obj(X + "StaticSite", {"pos_": Mat(3, 1, data=[[p_] for p_ in pos]), "Q_": Mat(9, 1, data=[[q_] for q_ in Q]), "rank_": sp.Integer(rank)})
+    # ---- reference: E = D_A D_B (1/r) at r = A - B, D_A = q + mu.d + Theta:dd/3, D_B = q - mu.d + Theta:dd/3 (potential of B's moments, energy of A's in it)
+    x, y, z = sp.symbols("x y z", real=True)
+    r = sp.Symbol("r", positive=True)
+    X3 = (x, y, z)
+    s3 = sp.sqrt(3)
+
+    def d(e, a_):
+        return sp.diff(e, X3[a_]) + sp.diff(e, r) * X3[a_] / r
+
+    def theta(Q):
+        q20, q21c, q21s, q22c, q22s = Q[4:9]
+        return sp.Matrix([[-q20 / 2 + s3 / 2 * q22c, s3 / 2 * q22s, s3 / 2 * q21c], [s3 / 2 * q22s, -q20 / 2 - s3 / 2 * q22c, s3 / 2 * q21s], [s3 / 2 * q21c, s3 / 2 * q21s, q20]])
+
+    def op(Q, sign, e):
+        out = Q[0] * e
+        th = theta(Q)
+        for a_ in range(3):
+            out += sign * Q[1 + a_] * d(e, a_)
+            for b_ in range(3):
+                out += sp.Rational(1, 3) * th[a_, b_] * d(d(e, a_), b_)
+        return out
+    E = op(QA, +1, op(QB, -1, 1 / r)).subs({x: -R * ux, y: -R * uy, z: -R * uz, r: R})
+    Tref = sp.Matrix(9, 9, lambda i, j: red(sp.diff(E, QA[i], QB[j])))
+    flip = {ux: -ux, uy: -uy, uz: -uz}
+    ref_sym = all(red(Tref[i, j].subs(flip, simultaneous=True) - Tref[j, i]) == 0 for i in range(9) for j in range(9))
+    rep.check(ref_sym and sp.simplify(Tref[0, 0] - 1 / R) == 0, "R15.6", "reference|exchange-and-charge-limit", "T_ij(u) = T_ji(-u) and T_00 = 1/R for the expansion tensor",
+              "the reference tensor derived by the rule is not exchange symmetric (rule error)", "rules/C15.py")
+    # ---- the code
+    vs = {}
+    for g in F.funcs:
+        if g.qname.endswith("eeInteractor::VSiteA") and g.j["template"] == "instantiation":
+            m_ = re.search(r"Matrix<double, (\d+), 1", g.j["sig"])
+            if m_:
+                vs[int(m_.group(1))] = g
+    rep.floor("R15.6", len(vs), 2, "instantiations of VSiteA<N>")
+    blocks = {0: range(0, 1), 1: range(1, 4), 2: range(4, 9)}
+    for N, g in sorted(vs.items()):
+        ranks_a = [a_ for a_ in (0, 1, 2) if blocks[a_].stop <= N]
+        for rb in (0, 1, 2):
+            try:
+                D = Dense(F, reduce=red)
+                V = D.val(D.run(g, Obj(X + "eeInteractor", {}), [site((Ax, Ay, Az), QA, max(ranks_a)), site((Ax + R * ux, Ay + R * uy, Az + R * uz), QB, rb)]))
+            except AnalysisBroken as ex:
+                rep.broken("R15.6", "VSiteA<%d>, rank(B) = %d: %s" % (N, rb, ex))
+                continue
+            if not isinstance(V, Matrix) or V.shape != (N, 1):
+                rep.broken("R15.6", "VSiteA<%d> does not fold to an %d-vector" % (N, N))
+                continue
+            V = V.applyfunc(red)
+            J = V.jacobian(Matrix(QB))
+            stray = sorted(str(s_) for s_ in V.free_symbols if s_ in (Ax, Ay, Az) or s_ in QA or str(s_).endswith("?"))
+            lin = (V - J * Matrix(QB)).applyfunc(sp.expand) == sp.zeros(N, 1) and not (J.free_symbols & set(QB))
+            rep.check(lin and not stray, "R15.6", "linear|N=%d|rankB=%d" % (N, rb), "V = T(posB - posA) Q(B): linear in B's moments, no absolute position, none of A's moments, no uninitialised entry",
+                      "VSiteA<%d> with rank(B) = %d: the result %s" % (N, rb, ("depends on " + ", ".join(stray)) if stray else "is not linear in B's moments"), g.loc(), sample=(N == 9 and rb == 2))
+            if not lin or stray:
+                continue
+            for ra in ranks_a:
+                for cb in (0, 1, 2):
+                    bad = None
+                    for i in blocks[ra]:
+                        for j in blocks[cb]:
+                            got, want = J[i, j], Tref[i, j]
+                            if cb <= rb:
+                                if red(got - want) != 0:
+                                    bad = bad or "entry (%d,%d) is %s, the expansion gives %s" % (i, j, sp.factor(got), sp.factor(want))
+                            elif got != 0 and red(got - want) != 0:
+                                bad = bad or "entry (%d,%d), a moment above rank(B), enters with %s (neither absent nor the expansion's %s)" % (i, j, sp.factor(got), sp.factor(want))
+                    rep.check(bad is None, "R15.6", "tensor|N=%d|rankB=%d|block %dx%d" % (N, rb, ra, cb),
+                              "rank-%d moments of A x rank-%d moments of B: %s" % (ra, cb, "equal to the multipole expansion" if cb <= rb else "absent or equal to the expansion"),
+                              "VSiteA<%d> with rank(B) = %d, block (rank %d of A) x (rank %d of B): %s; the pair energy then differs from the multipole expansion "
+                              "(exchange symmetry E(A,B) = E(B,A), rotation invariance and the point-charge limit are lost)" % (N, rb, ra, cb, bad), g.loc(),
+                              sample=(N == 9 and rb == 2 and ra == 2 and cb == 1))
+    # ---- the conversion used by Rotate and by the mps reader: spherical -> Cartesian is the map the expansion assumes; Cartesian -> spherical inverts it
+    unit = front.repo("xtp/src/libxtp/staticsite.cc")
+    FS = Facts(front.export([unit]))
+    Qs = sp.symbols("Q0:9", real=True)
+    try:
+        D = Dense(FS)
+        cm, sm = FS.one(X + "StaticSite::CalculateCartesianMultipole"), FS.one(X + "StaticSite::CalculateSphericalMultipole")
+        rep.analysed(cm)
+        rep.analysed(sm)
+        C2 = D.val(D.run(cm, site((0, 0, 0), Qs, 2), []))
+        C1 = D.val(D.run(cm, site((0, 0, 0), Qs, 1), []))
+        okc = isinstance(C2, Matrix) and (C2 - theta(Qs)).applyfunc(sp.expand) == sp.zeros(3, 3)
+        rep.check(okc, "R15.6", "cartesian-quadrupole", "Theta(Q20..Q22s) is the traceless Cartesian quadrupole of the real spherical components",
+                  "CalculateCartesianMultipole returns %s for a rank-2 site; the interaction tensor assumes %s" % (C2, theta(Qs)), cm.loc(), sample=True)
+        rep.check(isinstance(C1, Matrix) and not (C1.free_symbols & set(Qs[:4])), "R15.6", "cartesian-quadrupole|rank<2", "no charge or dipole component enters the quadrupole tensor",
+                  "CalculateCartesianMultipole mixes charge/dipole components into the tensor: %s" % C1, cm.loc())
+        Sx = D.val(D.run(sm, None, [theta(Qs)]))
+        oks = isinstance(Sx, Matrix) and Sx.shape == (5, 1) and (Sx - Matrix(Qs[4:9])).applyfunc(sp.simplify) == sp.zeros(5, 1)
+        rep.check(oks, "R15.6", "spherical-inverts-cartesian", "CalculateSphericalMultipole(Theta(Q)) = Q", "CalculateSphericalMultipole(Theta(Q)) = %s, not Q: a rotation by the identity changes the quadrupole" % (Sx.T if isinstance(Sx, Matrix) else Sx),
+                  sm.loc(), sample=True)
+    except AnalysisBroken as ex:
+        rep.broken("R15.6", "quadrupole conversions: %s" % ex)
